@@ -29,6 +29,13 @@ def make_query(rng, st):
                        with_src=st.get("src"), maxlen=st.get("maxlen", 5))
     if st.get("untraced") and rng.random() < st["untraced"]:
         sc["traced"] = False
+    if st.get("up") and sc.get("src") and rng.random() < st["up"]:
+        # the search starts from an ancestor Match of a result (m.parent, m.parent.parent) of a search that is
+        # still suspended, and begins with an iterating step
+        sc["src"]["up"] = rng.choice([1, 1, 2])
+        if rng.random() < 0.7:
+            sc["path"] = [rng.choice([["gwc"], ["wc"], ["iwc"], ["rec"], ["s", None, None, None], ["t", ["a", 0, "b", 1]]])] + \
+                [x for x in sc["path"] if x[0] != "rec"][:2]
     if st.get("nexts") == "drain" and sc["api"] in ("find", "find_matches"):
         sc["nexts"] = "drain"
         sc["extra"] = rng.choice([0, 1])
@@ -264,9 +271,9 @@ def run_corpus(ctx, cfg):
 
 # ------------------------------------------------------------------ registry
 
-def Q(profile="all", pred="mixed", apis=None, src=None, maxlen=5, nexts=None, share=1.0, untraced=0.0):
+def Q(profile="all", pred="mixed", apis=None, src=None, maxlen=5, nexts=None, share=1.0, untraced=0.0, up=0.0):
     return dict(kind="q", profile=profile, pred_profile=pred, apis=apis, src=src, maxlen=maxlen, nexts=nexts, share=share,
-                untraced=untraced)
+                untraced=untraced, up=up)
 
 
 ALL_APIS = ["find_matches", "find", "get_match", "get"]
@@ -389,7 +396,8 @@ register("C07", generated=["Shared"], streams=[Q("all", apis=["find_matches", "f
 register("C11", streams=[Q("nopar", apis=["find_matches"], src=None)],
          observables=["full_results"], oracles=[oracles.match_truth_oracle, oracles.match_eq_oracle, oracles.eq_after_change_oracle],
          rule="parent-free paths; every Match observable (path_as_str, data_name, data, path_match_list names, parent) compared; round trip through Match.path, duplicate-freedom and == on random pairs as python-side oracles")
-register("C12", streams=[Q("all", apis=ALL_APIS, src=True, untraced=0.4, share=3), Q("parent", apis=ALL_APIS, src=True, untraced=0.4, share=1)],
+register("C12", streams=[Q("all", apis=ALL_APIS, src=True, untraced=0.4, share=3), Q("parent", apis=ALL_APIS, src=True, untraced=0.4, share=1),
+                         Q("nopar", apis=ALL_APIS, src=True, untraced=0.4, share=1, up=1.0)],
          observables=["full_results"], oracles=[oracles.concat_oracle],
          rule="pairs (p, q): every API function run on q from the k-th match of p, compared with the specification evaluated from the same match; p+q concatenation checked on the python side")
 register("C13", streams=[Q("parent", apis=["find_matches"], src=None, share=2), Q("parent", apis=ALL_APIS, src=True, share=1, untraced=0.4)],
